@@ -150,7 +150,7 @@ theorem runList_loc (hb : LocBody o body body') (skip : M → Bool) (ms : List M
     · simp only [hs]
       exact Loc.andThen (tryMove_loc hb m a s) (fun a1 s1 _ _ => ih a1 s1)
 
-theorem iterate_loc [DecidableEq M] (hb : LocBody o body body') (cfg : Cfg) (mg : MG M) (a : σ) (s : Eng M) :
+theorem iterate_loc [DecidableEq M] (hb : LocBody o body body') (cfg : SOpts) (mg : MG M) (a : σ) (s : Eng M) :
     Loc o s (iterate g cfg o p mg body a s) (iterate g cfg o.never p mg body' a s) := by
   unfold iterate
   refine Loc.andThen (Loc.andThen ?_ ?_) ?_
@@ -374,7 +374,7 @@ theorem pvBody_loc [DecidableEq M] (g : Game P M) {cpv cpv' : PvFn P M} {czw czw
   obtain ⟨h1, h2⟩ := recordCut_counters _ _ _ _ s2 hs2
   exact (Loc.pure s2 _ s2 (Nat.le_refl _) (Nat.le_refl _)).start h1.symm h2.symm
 
-theorem pvNode_loc [DecidableEq M] (g : Game P M) (cfg : Cfg) (frame : Bool)
+theorem pvNode_loc [DecidableEq M] (g : Game P M) (cfg : SOpts) (frame : Bool)
     {cpv cpv' : PvFn P M} {czw czw' : ZwFn P M} (hp : LocPv o cpv cpv') (hz : LocZw o czw czw') :
     LocPv o (pvNode g cfg o frame cpv czw) (pvNode g cfg o.never frame cpv' czw') := by
   intro p ply depth pv a b s
@@ -402,7 +402,7 @@ theorem pvNode_loc [DecidableEq M] (g : Game P M) (cfg : Cfg) (frame : Bool)
         | next acc => exact pvStore_loc _ depth b acc s3
         | brk acc => exact pvStore_loc _ depth b acc s3
 
-theorem nullMove_loc (g : Game P M) (cfg : Cfg) {czw czw' : ZwFn P M} (hz : LocZw o czw czw')
+theorem nullMove_loc (g : Game P M) (cfg : SOpts) {czw czw' : ZwFn P M} (hz : LocZw o czw czw')
     (p : P) (ply : Nat) (depth a : Int) (s : Eng M) :
     Loc o s (nullMove g cfg czw p ply depth a s) (nullMove g cfg czw' p ply depth a s) := by
   unfold nullMove
@@ -426,7 +426,7 @@ theorem nullMove_loc (g : Game P M) (cfg : Cfg) {czw czw' : ZwFn P M} (hz : LocZ
     exact Loc.ite _ (fun _ => Loc.pure s1 _ _ (Nat.le_refl _) (Nat.le_refl _))
       (fun _ => Loc.pure s1 _ _ (Nat.le_refl _) (Nat.le_refl _))
 
-theorem slideReduction_counters (g : Game P M) (cfg : Cfg) (p : P) (ply : Nat) (depth : Int) (s : Eng M) :
+theorem slideReduction_counters (g : Game P M) (cfg : SOpts) (p : P) (ply : Nat) (depth : Int) (s : Eng M) :
     Sat (slideReduction g cfg p ply depth s) (fun x => s.loads ≤ x.2.loads ∧ s.evals ≤ x.2.evals) := by
   unfold slideReduction
   split
@@ -451,7 +451,7 @@ theorem mcBody_loc {czw czw' : ZwFn P M} (hz : LocZw o czw czw') (ply : Nat) (de
   exact Loc.ite _ (fun _ => Loc.pure s1 _ _ (Nat.le_refl _) (Nat.le_refl _))
     (fun _ => Loc.pure s1 _ s1 (Nat.le_refl _) (Nat.le_refl _))
 
-theorem multiCut_loc [DecidableEq M] (g : Game P M) (cfg : Cfg) {czw czw' : ZwFn P M} (hz : LocZw o czw czw')
+theorem multiCut_loc [DecidableEq M] (g : Game P M) (cfg : SOpts) {czw czw' : ZwFn P M} (hz : LocZw o czw czw')
     (p : P) (mg : MG M) (a : Int) (cut : Bool) (s : Eng M) :
     Loc o s (multiCut g cfg o czw p mg a cut s) (multiCut g cfg o.never czw' p mg a cut s) := by
   unfold multiCut
@@ -482,7 +482,7 @@ theorem zwBody_loc [DecidableEq M] {czw czw' : ZwFn P M} (hz : LocZw o czw czw')
   intro pv0 _
   exact (Loc.pure (o := o) { s2 with pv0 := pv0 } _ _ (Nat.le_refl _) (Nat.le_refl _)).start h1.symm h2.symm
 
-theorem zwNode_loc [DecidableEq M] (g : Game P M) (cfg : Cfg) (frame : Bool)
+theorem zwNode_loc [DecidableEq M] (g : Game P M) (cfg : SOpts) (frame : Bool)
     {czw czw' : ZwFn P M} (hz : LocZw o czw czw') :
     LocZw o (zwNode g cfg o frame czw) (zwNode g cfg o.never frame czw') := by
   intro p ply depth pv a cut s
@@ -528,7 +528,7 @@ theorem zwNode_loc [DecidableEq M] (g : Game P M) (cfg : Cfg) (frame : Bool)
 
 /-- **locality of the search**: as long as the flag was clear on every load, a search under the oracle `o` is
 the search with the flag never set; the load and evaluation counters only grow -/
-theorem search_loc [DecidableEq M] (g : Game P M) (cfg : Cfg) :
+theorem search_loc [DecidableEq M] (g : Game P M) (cfg : SOpts) :
     ∀ n, LocPv o (search g cfg o n).1 (search g cfg o.never n).1 ∧
          LocZw o (search g cfg o n).2 (search g cfg o.never n).2 := by
   intro n
